@@ -409,6 +409,13 @@ impl Deb822 {
                 COMMENT | ERROR => {
                     current.push(c);
                 }
+                NEWLINE => {
+                    // the line break of a comment that is a child of the root itself (as in a document
+                    // returned by this function)
+                    if current.last().map(|l| l.kind()) == Some(COMMENT) {
+                        current.push(c);
+                    }
+                }
                 EMPTY_LINE => {
                     current.extend(
                         c.as_node()
